@@ -51,12 +51,12 @@ CLAIMED = {
  'C05': dict(
     text='Theorem: for a segment of n > 0 characters, after ANY sequence of primitive operations every slot\'s before / after / original lie in [0, n) '
          '(ASSOC with arbitrary references, insertion at either end, copies, associateChars extension included); char-infos of canonical text are the '
-         'characters with their code-unit offsets (from the text-reading model).  The char-info clause (before/after are slot indices) is REFUTED in the '
-         'model by a vm_compute witness (delete without ASSOC); no shipped font produces that sequence.  Tie and oracle as C03; the model computes '
+         'characters with their code-unit offsets (from the text-reading model).  After associateChars a char-info never has just one side set (a character whose slot was deleted without ASSOC takes both '
+         'from the neighbouring slot): the former refutation witness was replayed on the real engine with a compiled GDL-lite font and repaired by a fix: commit.  Tie and oracle as C03, plus compiled '
+         'rule programs (FontKit) that insert, delete without re-association and substitute; the model computes '
          'associateChars (char-info before/after and slot range extension) and the results are compared with the implementation on every case.',
-    note='PARTIAL: coverage of every character by some slot range is not proved (compared + oracle).  The refuted clause awaits a synthesised font to '
-         'replay it on the implementation (DESIGN.md section 7, F10).',
-    technique='Coq proof (range invariant over all op sequences; refutation witness) + trace-refinement correspondence + oracle',
+    note='PARTIAL: coverage of every character by some slot range and before/after < n_slots are not proved (compared + oracle).',
+    technique='Coq proof (range invariant over all op sequences; char-info sides lemma) + trace-refinement correspondence + oracle over shipped and compiled fonts',
     design='6/C05'),
  'C06': dict(
     text='Theorems over an executable reference semantics of a pass (GDL-lite: rules = pattern of glyph sets with uniform pre-context, per-item actions put_glyph / put_subs / delete / insert / advance / '
